@@ -14,6 +14,12 @@ CHECKS = {
     'C01': ('bounded symbolic execution of the real rate() and of an independent reference in one path (sx engine) + z3 QF_NRA equality per player; sat models replayed on float code',
             'For every model, listed team shapes and every weak order, limit_sigma on/off, default and uninterpreted gamma: z3 shows on every path that the real rate() returns exactly the terms of the reference written from the paper (Algorithms 1-4 with the documented extensions).',
             TRUST + ' The reference ref/wenglin.py is trusted to be the published rule.', '6/C01'),
+    'C02': ('symbolic execution of the real rate() over a symbolic rank/score vector (values z3 Real, Python kinds z3 Int tags; z3 decides path feasibility and exhaustiveness), per-path concrete slot/id/aliasing oracle',
+            'Every path of rate() over ALL finite int/float/bool rank or score vectors of length 2-4 (5 single-kind in thorough) is explored on games with distinct players; on each path ids, names, nesting, aliasing and the reference posterior of each slot are checked.',
+            'Trusted: z3 (LRA/LIA feasibility), CPython list.sort/sorted executed natively, float reference ref/wenglin.py at 1e-9. Game values are concrete (distinct generic players); the vector is fully symbolic.', '6/C02'),
+    'C03': ('symbolic execution of the real rate() over a symbolic rank/score vector (values z3 Real, kinds z3 Int tags), z3-decided path partition; per path comparison with the real code on canonical dense ranks',
+            'Every path of rate() over ALL finite int/float/bool rank or score vectors of length 2-4 (5 single-kind in thorough): the result equals the result for the canonical dense int ranks of the path\'s weak order; scores == negated ranks; omitted == [0..n-1].',
+            'Trusted: z3 (LRA/LIA), exactness of CPython comparisons between finite int/float/bool. NaN/inf ranks outside. Game values concrete.', '6/C03'),
     'C07': ('bounded symbolic execution of the real rate() (sx engine) + z3 QF_NRA per path; sat models replayed on float code',
             'For every model, the listed team shapes and every weak order, z3 shows on every path of the real rate() that the '
             'precision-weighted mu change cannot differ from zero (TM: cannot exceed the tied-pair margin) for any mu, sigma, beta, tau, kappa in the domain.',
